@@ -190,6 +190,18 @@ Lookup(env, x) == LET hit == {j \in 1..Len(env) : env[j].n = x} IN
                   IF hit = {} THEN NIL ELSE env[CHOOSE j \in hit : \A h \in hit : h <= j].t
 Bind(env, x, t) == Append(env, [n |-> x, t |-> t])
 
+\* Type definitions (`type N = T;`) live in the same scopes as variables, under names of their own: the innermost
+\* definition of a name is the one that is meant (a definition in a function or block hides an outer one).
+TypeKey(n) == "type " \o n
+RECURSIVE ResolveT(_, _)
+ResolveT(env, t) ==
+    CASE t.k = "named" -> LET d == Lookup(env, TypeKey(t.n)) IN IF d = NIL THEN t ELSE d
+      [] t.k \in {"list", "opt"} -> [t EXCEPT !.t = ResolveT(env, t.t)]
+      [] t.k = "obj" -> [t EXCEPT !.fs = [j \in 1..Len(t.fs) |-> [t.fs[j] EXCEPT !.t = ResolveT(env, t.fs[j].t)]]]
+      [] t.k = "fn" -> IF IsVar(t) THEN t
+                       ELSE [t EXCEPT !.ps = [j \in 1..Len(t.ps) |-> [t.ps[j] EXCEPT !.t = ResolveT(env, t.ps[j].t)]], !.r = ResolveT(env, t.r)]
+      [] OTHER -> t
+
 \* what a name denotes: variable first, then function of the module, then builtin
 Denote(env, ctx, x) ==
     LET v == Lookup(env, x) IN
@@ -287,9 +299,14 @@ CheckStmt(env, ctx, s) ==
             ELSE IF s.t = NIL THEN
                     IF ContainsAny(r.t) THEN Fail("ImplicitAny")
                     ELSE Res("ok", TNull, r.nv, r.bk, Bind(env, s.x, r.t), r.pr \o << <<"let", s.x, r.t>> >>)
-            ELSE IF TypeError(s.t) # "ok" THEN Fail(TypeError(s.t))
-            ELSE IF ~Compat(r.t, s.t, ~ContainsAny(r.t)) THEN Fail("AssignMismatch")
-            ELSE Res("ok", TNull, r.nv, r.bk, Bind(env, s.x, s.t), r.pr \o << <<"let", s.x, s.t>> >>)
+            ELSE LET st == ResolveT(env, s.t) IN
+                 IF TypeError(st) # "ok" THEN Fail(TypeError(st))
+                 ELSE IF ~Compat(r.t, st, ~ContainsAny(r.t)) THEN Fail("AssignMismatch")
+                 ELSE Res("ok", TNull, r.nv, r.bk, Bind(env, s.x, st), r.pr \o << <<"let", s.x, st>> >>)
+      [] s.k = "typedef" ->
+            LET dt == ResolveT(env, s.t) IN
+            IF TypeError(dt) # "ok" THEN Fail(TypeError(dt))
+            ELSE Res("ok", TNull, FALSE, FALSE, Bind(env, TypeKey(s.n), dt), <<>>)
       [] s.k = "expr" ->
             LET r == TypeOf(env, ctx, s.e) IN
             IF r.c # "ok" THEN r ELSE Res("ok", IF r.t.k = "never" THEN TNever ELSE TNull, r.nv, r.bk, env, r.pr)
@@ -422,11 +439,12 @@ TypeOfRaw(env, ctx, e) ==
       [] e.k = "cast" ->
             LET a == TLCEval(TypeOfRaw(env, ctx, e.e)) IN
             IF a.c # "ok" THEN a
-            ELSE IF TypeError(e.t) # "ok" THEN Fail(TypeError(e.t))
-            ELSE IF a.t.k \in {"bool", "int", "float"} /\ e.t.k \in {"bool", "int", "float"} THEN Good(e.t, a.nv, FALSE, a.pr)
-            ELSE IF a.t.k = "obj" /\ e.t.k = "anyobj" THEN Good(e.t, a.nv, FALSE, a.pr)
-            ELSE IF ~Compat(a.t, e.t, FALSE) \/ e.t.k = "fn" THEN Fail("BadCast")
-            ELSE Good(e.t, a.nv, FALSE, a.pr)
+            ELSE LET ct == ResolveT(env, e.t) IN
+                 IF TypeError(ct) # "ok" THEN Fail(TypeError(ct))
+                 ELSE IF a.t.k \in {"bool", "int", "float"} /\ ct.k \in {"bool", "int", "float"} THEN Good(ct, a.nv, FALSE, a.pr)
+                 ELSE IF a.t.k = "obj" /\ ct.k = "anyobj" THEN Good(ct, a.nv, FALSE, a.pr)
+                 ELSE IF ~Compat(a.t, ct, FALSE) \/ ct.k = "fn" THEN Fail("BadCast")
+                 ELSE Good(ct, a.nv, FALSE, a.pr)
       [] e.k = "block" -> LET b == CheckBlock(env, ctx, e, FALSE) IN IF b.c # "ok" THEN b ELSE Good(b.t, b.nv, b.bk, b.pr)
       [] e.k = "if" ->
             LET c == TypeOf(env, ctx, e.c) IN
@@ -489,6 +507,9 @@ IsConst(e) ==
 
 \* the type callers see: singleton parameters are bound by the callee, not passed
 FnType(f) == TFn([j \in 1..Len(f.ps) |-> PR(f.ps[j], f.pts[j])], f.ret)
+\* ... with the names of the module's type definitions replaced by what they stand for
+ModuleTypes(p) == [j \in 1..Len(p.types) |-> [n |-> TypeKey(p.types[j].n), t |-> p.types[j].t]]
+FnTypeIn(p, f) == ResolveT(ModuleTypes(p), FnType(f))
 SingType(p, name) == LET hit == {j \in 1..Len(p.sings) : p.sings[j].n = name} IN
                      IF hit = {} THEN NIL ELSE p.sings[CHOOSE j \in hit : TRUE].t
 
@@ -506,14 +527,14 @@ CheckFns(p, ctx, names, env, acc) ==
     IF names = <<>> THEN acc
     ELSE LET f == p.fns[Head(names)] IN
          IF \E a, b \in 1..Len(f.ps) : a # b /\ f.ps[a] = f.ps[b] THEN Fail("DuplicateDef")
-         ELSE IF TypeError(FnType(f)) # "ok" THEN Fail(TypeError(FnType(f)))
+         ELSE IF TypeError(FnTypeIn(p, f)) # "ok" THEN Fail(TypeError(FnTypeIn(p, f)))
          ELSE IF \E j \in 1..Len(f.sps) : SingType(p, f.sps[j][2]) = NIL THEN Fail("UnknownType")     \* extraction of an undeclared singleton
          ELSE IF \E a, b \in 1..Len(f.sps) : a # b /\ f.sps[a][2] = f.sps[b][2] THEN Fail("DuplicateDef")
          ELSE LET env1 == env \o [j \in 1..Len(f.sps) |-> [n |-> f.sps[j][1], t |-> SingType(p, f.sps[j][2])]]
-                             \o [j \in 1..Len(f.ps) |-> [n |-> f.ps[j], t |-> f.pts[j]]]
-                  b == CheckBlock(env1, [ctx EXCEPT !.ret = f.ret, !.self = Head(names)], f.body, TRUE) IN
+                             \o [j \in 1..Len(f.ps) |-> [n |-> f.ps[j], t |-> FnTypeIn(p, f).ps[j].t]]
+                  b == CheckBlock(env1, [ctx EXCEPT !.ret = FnTypeIn(p, f).r, !.self = Head(names)], f.body, TRUE) IN
               IF b.c # "ok" THEN b
-              ELSE IF ~Compat(b.t, f.ret, TRUE) THEN Fail("ReturnMismatch")
+              ELSE IF ~Compat(b.t, FnTypeIn(p, f).r, TRUE) THEN Fail("ReturnMismatch")
               ELSE CheckFns(p, ctx, Tail(names), env, [acc EXCEPT !.pr = @ \o b.pr])
 
 (* impl blocks: `impl T [with { caps }] for $S { methods }`.  The capabilities select the methods the template requires; *)
@@ -547,10 +568,10 @@ HasDefault(t) ==
 
 CheckProgram(p) ==
     LET names == SetToSeq(DOMAIN p.fns)
-        ctx0 == [fns |-> [n \in DOMAIN p.fns |-> FnType(p.fns[n])], events |-> [n \in DOMAIN p.fns |-> p.fns[n].event],
+        ctx0 == [fns |-> [n \in DOMAIN p.fns |-> FnTypeIn(p, p.fns[n])], events |-> [n \in DOMAIN p.fns |-> p.fns[n].event],
                  triggers |-> Range1(p.imports.trig), self |-> "", ret |-> NIL, loop |-> 0, spawn |-> FALSE]
         \* singletons are values of the root scope, named like their declaration
-        senv == [j \in 1..Len(p.sings) |-> [n |-> p.sings[j].n, t |-> p.sings[j].t]]
+        senv == ModuleTypes(p) \o [j \in 1..Len(p.sings) |-> [n |-> p.sings[j].n, t |-> p.sings[j].t]]
         badimpl == {j \in 1..Len(p.impls) : ImplError(p, p.impls[j]) # "ok"} IN
     IF p.dups # <<>> THEN Fail("DuplicateDef")                                   \* a function name defined twice
     ELSE IF p.needmain /\ "main" \notin DOMAIN p.fns THEN Fail("MainShape")
